@@ -19,7 +19,7 @@ RULE = (
     "fs) (rtol 1e-12); (c) fftnoise for every length 2..130 (exhaustive over length; generated magnitudes incl. zeros, "
     "negative/complex entries, garbage in the negative-frequency half): output real float64, |FFT(x)[k]|==|m[k]| for "
     "k<=N/2 (1e-12 max m) and Hermitian mirror; (d) band_limited_noise incl. lo=0 and hi=Nyquist: bins outside the "
-    "band <=1e-12, inside magnitude 1. Non-trivial: band spanning >=2 decades (a), even lengths with a non-zero "
+    "band <=1e-12, inside magnitude 1. Bands too narrow to have an interior (down to a fifth of a decade, 1-5 sections) are judged at the band centre with 2 dB. Non-trivial: band spanning >=2 decades (a), even lengths with a non-zero "
     "Nyquist bin (c), every white/band case."
 )
 ASSUMPTIONS = [
